@@ -547,6 +547,11 @@ func driveProc(p *Plan, shard int, w *Writer, t *codec.Table) {
 		}
 		run := func(useStdin bool) (procOut, string, bool) {
 			os.Remove(outFile)
+			if inv.O && sess%2 == 1 {
+				// the output file already exists and is longer than anything jd will write:
+				// "-o writes those same bytes to the file" must hold for a reused file too
+				os.WriteFile(outFile, []byte(strings.Repeat("stale output of an earlier run\n", 200)), 0644)
+			}
 			argv := inv.flags(outFile)
 			var stdin []byte
 			switch {
@@ -583,6 +588,9 @@ func driveProc(p *Plan, shard int, w *Writer, t *codec.Table) {
 			}
 			po := runProc(bin, argv, stdin, dir)
 			fb, err := os.ReadFile(outFile)
+			if inv.O && sess%2 == 1 && strings.HasPrefix(string(fb), "stale output of an earlier run\nstale") {
+				return po, "", false // untouched: jd did not write the file
+			}
 			return po, string(fb), err == nil
 		}
 		w.Sess[shard]++
